@@ -185,6 +185,8 @@ type nwEvent struct {
 
 var nwSeps = []string{"", " ", "\n", "\r\n", "\t", "  \n", "\n\n"}
 
+var nwMagic = []string{"\xef\xbb\xbf", "\xfe\xff", "\xff\xfe", "#", "#NEXUS", "[", "[&R]", "%", "//", "\\", "\x1b", "\x00", "&", "\""}
+
 func nwName(r *rand.Rand) string {
 	letters := "abcXYZ09.-|"
 	randOf := func(alpha string, n int) string {
@@ -194,11 +196,14 @@ func nwName(r *rand.Rand) string {
 		}
 		return string(b)
 	}
-	switch r.Intn(14) {
+	switch r.Intn(15) {
 	case 0:
 		return ""
 	case 1:
 		return randOf(letters, 1+r.Intn(8))
+	case 13: // byte sequences that mean something to text tools at the beginning of a file or a token: byte order marks, comment and
+		// directive openers, escapes
+		return nwMagic[r.Intn(len(nwMagic))] + randOf(letters, r.Intn(7))
 	case 2: // each quoting trigger
 		t := "(),:;'_\t\n\r"
 		return randOf(letters, r.Intn(3)) + string(t[r.Intn(len(t))]) + randOf(letters, r.Intn(3))
@@ -263,6 +268,27 @@ func nwDist(r *rand.Rand) float64 {
 	}
 }
 
+// nwComb: a spine of the given depth on which every node has further children: leaves after the spine child (shape 0), before it
+// (1), or on both sides (2) - depth and branching together
+func nwComb(r *rand.Rand, depth, shape int) *newick.Node {
+	root := &newick.Node{Name: nwName(r), Distance: nwDist(r)}
+	cur := root
+	for d := 1; d < depth; d++ {
+		next := &newick.Node{Name: nwName(r), Distance: nwDist(r)}
+		leaf := func() *newick.Node { return &newick.Node{Name: nwName(r), Distance: nwDist(r)} }
+		switch shape {
+		case 0:
+			cur.Children = []*newick.Node{next, leaf()}
+		case 1:
+			cur.Children = []*newick.Node{leaf(), next}
+		default:
+			cur.Children = []*newick.Node{leaf(), next, leaf()}
+		}
+		cur = next
+	}
+	return root
+}
+
 // random tree with n nodes; chain = a single path of depth n-1
 func nwRandTree(r *rand.Rand, n int, chain bool) *newick.Node {
 	nodes := make([]*newick.Node, n)
@@ -324,6 +350,16 @@ func newickDrive(args []string) error {
 				n = 1 + r.Intn(200)
 			}
 			root := nwRandTree(r, n, chain)
+			if c := sid - 2*len(big); c >= 0 && c < 3 { // deep and branching at every level (beyond 1024 levels)
+				root = nwComb(r, 1100, c)
+				ev.Small = false
+			}
+			if sid%3 == 0 && sid%2 == 1 && k == 0 { // the stream begins with a name: a lone node first
+				root = &newick.Node{Name: nwName(r), Distance: root.Distance}
+				if sid%4 == 1 { // every opener in turn
+					root.Name = nwMagic[(sid/12)%len(nwMagic)] + "genome"
+				}
+			}
 			if r.Intn(8) == 0 && ev.Small {
 				root = &newick.Node{} // the bare tree ";": no name, no distance, no children
 			}
